@@ -385,6 +385,14 @@ class Impl:
                 marks = [len(t.sent) for t in transports]
                 i = ev["p"]
                 outcome = None
+                if ev.get("close"):
+                    # the viewer of association i goes away (impl-only event: not part of the model's histories)
+                    try:
+                        protos[i].close()
+                    except Exception as e:      # noqa
+                        pass
+                    events.append(("CLOSE", []))
+                    continue
                 try:
                     protos[i].datagram_received(unhx(ev["data"]), (n2ip(ev["src"][0]), ev["src"][1]))
                 except Exception as e:      # modelled: datagram discarded, state as left by the code
@@ -1314,6 +1322,57 @@ def scale_scenarios(ctx, impl: Impl, P: "Payloads"):
     yield "scale:long:%d" % (len(events) - 1), sc
 
 
+def correspond_close(ctx, impl: Impl) -> CorrResult:
+    """two viewers behind one proxy: the end of one viewer's association must not disturb the other session - whether that one is
+    already claimed or still pending (logged in, UseCircuitCode not yet sent).  Impl-level oracle (close is not in the model)."""
+    res = CorrResult(suite="end of one association does not disturb another session (impl-level oracle)",
+                     rule="sessions A and B with one region each, two associations; A opens its circuit, [B opens its circuit before | "
+                          "after] A's association is closed; then B's UseCircuitCode (if still due), a viewer->simulator chat and a "
+                          "simulator->viewer chat of B: each reaches exactly its peer exactly once")
+    P = Payloads(impl, ctx.rng, False)
+    VA, VB = (ip2n("192.168.1.20"), 50001), (ip2n("192.168.1.21"), 50002)
+    SA, SB = (ip2n("10.1.0.3"), 13000), (ip2n("10.1.0.4"), 13001)
+    n = 0
+    for b_first in (True, False):
+        n += 1
+        sc = {"sessions": [{"sid": 5, "regions": [list(SA)]}, {"sid": 6, "regions": [list(SB)]}],
+              "protos": [{"client": list(VA)}, {"client": list(VB)}]}
+        ev = []
+        ev.append({"p": 0, "src": list(VA), "data": hx(socks_hdr(SA) + P.ucc(5))})
+        if b_first:
+            ev.append({"p": 1, "src": list(VB), "data": hx(socks_hdr(SB) + P.ucc(6))})
+        ev.append({"p": 0, "close": 1, "src": list(VA), "data": ""})
+        if not b_first:
+            ev.append({"p": 1, "src": list(VB), "data": hx(socks_hdr(SB) + P.ucc(6))})
+        k0 = len(ev)
+        ev.append({"p": 1, "src": list(VB), "data": hx(socks_hdr(SB) + P.chat_out())})
+        ev.append({"p": 1, "src": list(SB), "data": hx(P.chat_in())})
+        sc["events"] = ev
+        try:
+            events, _state, _ss, _stray = impl.run(sc)
+        except Exception as e:   # noqa
+            res.disagreements.append({"what": "close scenario could not be run", "exc": type(e).__name__ + ": " + str(e)[:200]})
+            continue
+        want_dst = {k0 - 1: SB, k0: SB, k0 + 1: VB}
+        for idx in ((k0 - 1, k0, k0 + 1) if not b_first else (k0, k0 + 1)):
+            outcome, sends = events[idx]
+            if len(sends) != 1 or tuple(sends[0][1]) != tuple(want_dst[idx]):
+                res.impl_violations.append({"clause": "every datagram of a session with an open (or opening) circuit reaches exactly its peer "
+                                                      "exactly once - whatever happens to another viewer's association",
+                                            "class": "close-disturbs-other-session", "b_opened_before_close": b_first, "event": idx,
+                                            "outcome": outcome, "sends": [[hx(d)[:40], list(a)] for d, a in sends], "kind": "close"})
+                break
+    seen, keep = set(), []
+    for v in res.impl_violations:
+        if v["class"] not in seen:
+            seen.add(v["class"])
+            keep.append(v)
+    res.impl_violations = keep
+    res.evaluations = n
+    res.distinct_nontrivial = n
+    return res
+
+
 # ---------------------------------------------------------------------------------------
 # framework entry points
 
@@ -1647,7 +1706,7 @@ def _run_batch(ctx, impl: Impl, batch, res: CorrResult, dist, viol_classes, iso_
 def correspond(ctx):
     impl = Impl()
     try:
-        out = [correspond_socks(ctx, impl)]
+        out = [correspond_socks(ctx, impl), correspond_close(ctx, impl)]
         # ---- routing scenarios
         P = Payloads(impl, ctx.rng, all_types=ctx.thorough)
         res = CorrResult(suite="routing: real InterceptingLLUDPProxyProtocol vs extracted model",
@@ -1758,6 +1817,9 @@ def search(ctx, hints):
 def replay(ctx, case):
     impl = Impl()
     try:
+        if case.get("kind") == "close":
+            r = correspond_close(ctx, impl)
+            return (True, r.impl_violations[0]) if r.impl_violations else (False, "holds")
         if "scenario" in case:
             v = check_property(impl, case["scenario"])
             if v is None:
